@@ -612,6 +612,8 @@ func (g *grid) bypass(x elem) string {
 func (g *grid) cause(x elem) string {
 	d, fam, sk := g.dc[x.d].Name, g.fl[x.f].Family, g.sk[x.s].Name
 	switch {
+	case strings.HasPrefix(sk, "get-where") && strings.HasPrefix(fam, "name:"):
+		return "queryMeasurement (GET /api/v1/query/:measurement) checks RBAC only for the database/measurement parameters; table references inside the caller's where fragment are rewritten to read_parquet() by getTransformedSQL without any permission check"
 	case d == "identifier-backtick":
 		return "ValidateSQLRequest maps every backtick to a double quote before masking (backticksToDoubleQuotes), so a backtick INSIDE a quoted identifier flips the quote parity of the shared normalisation; ioDenylistNormalise then deletes the quotes and the path's /**/ reads as a comment"
 	case strings.HasPrefix(d, "identifier-") || d == "table-alias-quoted-single-quote" || d == "table-alias-quoted-line-comment" || d == "table-alias-quoted-open-paren":
